@@ -13,10 +13,8 @@ Proof. intros [->| ->]; [reflexivity|apply Rabs_Ropp]. Qed.
    rewrite the argument of the first Rabs of the goal into D, then arithmetic *)
 Ltac abs_norm D :=
   match goal with |- context [Rabs ?x] =>
-    replace x with D by (unfold det2, det3; ring) end; try reflexivity; try field; try lra.
-Ltac abs_norm_opp D :=
-  match goal with |- context [Rabs ?x] =>
-    replace x with (- D) by (unfold det2, det3; ring); rewrite Rabs_Ropp end;
+    first [ replace x with D by (unfold det2, det3; ring)
+          | replace x with (- D) by (unfold det2, det3; ring); rewrite (Rabs_Ropp D) ] end;
   try reflexivity; try field; try lra.
 
 (* ---- learnerND.volume = |det (v_i - v_last)| / d! ---- *)
